@@ -477,7 +477,56 @@ impl Cluster {
 
 /// C10: arbitrary well-formed content through every response type: unusual node ids / ports / UTF-8 names,
 /// extreme offsets and high-watermarks, committed offsets incl. none, several brokers, response orders.
+/// consumer polls over several brokers while one broker answers its fetches with a well-formed reply of an unusual shape
+/// (no topics at all / topics without partitions): everything the other brokers sent must still be handed out
+pub fn gen_unusual_fetch_shapes(rng: &mut Rng, d: &mut Dist) -> Vec<String> {
+    bump(d, "fetch-replies-of-unusual-shape");
+    let mut cl = Cluster::random(rng, 3, false);
+    while cl.brokers.len() < 2 {
+        let id = cl.brokers.len() as i32 + 1;
+        cl.brokers.push((id, format!("b{}", id), 9092));
+    }
+    // every broker leads something
+    let nb = cl.brokers.len();
+    let mut k = 0usize;
+    for t in cl.topics.iter_mut() {
+        if t.leaders.len() < 2 {
+            t.leaders.push(1);
+        }
+        for l in t.leaders.iter_mut() {
+            *l = cl.brokers[k % nb].0;
+            k += 1;
+        }
+    }
+    let mut out = cl.setup_lines();
+    for t in &cl.topics {
+        for p in 0..t.leaders.len() {
+            append_batches(rng, d, &mut out, &t.name, p, 0, 2);
+        }
+    }
+    let odd = rng.pick(&cl.brokers).0;
+    out.push(format!("FETCHSHAPE {} {}", odd, 1 + rng.below(2)));
+    if rng.chance(1, 3) {
+        out.push(format!("ORDER {}", rng.pick(&["rev", "rot 1"])));
+    }
+    let mut opts: Vec<String> = cl.topics.iter().map(|t| format!("topic={}", h(&t.name))).collect();
+    opts.push("fallback=earliest".into());
+    out.push(format!("OP consumer_create hosts={} {}", cl.bootstrap(), opts.join(" ")));
+    // broker contact order is the hash map's: several polls, so that the odd reply comes first in some
+    for _ in 0..(3 + rng.below(3)) {
+        out.push("OP poll".into());
+    }
+    out.push(format!("FETCHSHAPE {} 0", odd));
+    for _ in 0..12 {
+        out.push("OP poll".into());
+    }
+    out
+}
+
 pub fn gen_c10(rng: &mut Rng, d: &mut Dist, idx: u64) -> Vec<String> {
+    if idx % 6 == 2 {
+        return gen_unusual_fetch_shapes(rng, d);
+    }
     // arrays around the decoders' internal limits (the pre-allocation cap is 4096 elements): every element must arrive
     if idx % 149 == 5 && idx < 1200 {
         let n = [4097usize, 4096, 5000, 4095][((idx / 149) % 4) as usize];
@@ -2092,7 +2141,10 @@ pub fn append_batches(rng: &mut Rng, d: &mut Dist, out: &mut Vec<String>, topic:
 /// C01: cluster layouts x partition logs (gaps, batch boundaries, codecs, empty partitions next to non-empty ones,
 /// entries cut by max_bytes) x response orders x histories of poll / seek / appends / injected partition errors /
 /// I/O failures, finished by fault-free polls until one returns empty.
-pub fn gen_c01(rng: &mut Rng, d: &mut Dist, _idx: u64) -> Vec<String> {
+pub fn gen_c01(rng: &mut Rng, d: &mut Dist, idx: u64) -> Vec<String> {
+    if idx % 10 == 9 {
+        return gen_unusual_fetch_shapes(rng, d);
+    }
     let cl = Cluster::random(rng, 4, true);
     let mut out = cl.setup_lines();
     bump(d, &format!("brokers-{}", cl.brokers.len()));
@@ -2132,7 +2184,10 @@ pub fn gen_c01(rng: &mut Rng, d: &mut Dist, _idx: u64) -> Vec<String> {
     out.push(format!("OP consumer_create hosts={} {}", cl.bootstrap(), opts.join(" ")));
     let nops = 2 + rng.below(10);
     for _ in 0..nops {
-        match rng.below(10) {
+        // with small fetch sizes partitions wait for a fetch of their own: seek more often in between
+        let r = rng.below(10);
+        let r = if small && (r == 5 || r == 6) { 2 } else { r };
+        match r {
             0 => {
                 // inject a partition error into the next fetch
                 let t = rng.pick(&cl.topics);
@@ -2196,13 +2251,20 @@ pub fn gen_c08(rng: &mut Rng, d: &mut Dist, _idx: u64) -> Vec<String> {
     let storage = *rng.pick(&["zk", "kafka"]);
     bump(d, &format!("storage-{}", storage));
     let topics: Vec<String> = cl.topics.iter().map(|t| format!("topic={}", h(&t.name))).collect();
+    // half of the consumers fetch a few messages per poll, so that the sets of successive polls cover successive stretches of
+    // a log (marking an older set, or a set behind a mark already made, must never move a mark backwards)
+    let small = rng.chance(1, 2);
+    if small {
+        bump(d, "few-messages-per-poll");
+    }
     let create = format!(
-        "OP consumer_create hosts={} group={} storage={} fallback={} {}",
+        "OP consumer_create hosts={} group={} storage={} fallback={} {}{}",
         cl.bootstrap(),
         h("grp"),
         storage,
-        rng.pick(&["earliest", "latest"]),
-        topics.join(" ")
+        rng.pick(&["earliest", "earliest", "latest"]),
+        topics.join(" "),
+        if small { format!(" maxbytes={} retrylimit=100000", 60 + rng.below(60)) } else { String::new() }
     );
     out.push(create.clone());
     out.push("OP k set retry_backoff_ms 0".into());
